@@ -98,7 +98,8 @@ class Lab:
         table = {"ValueError": ValueError("validator says no: token-7731"), "SecurityError": errors.SecurityError("not allowed: token-7731"),
                  "ConnectionClosedError": errors.ConnectionClosedError("closed: token-7731"),
                  "KeyError": KeyError("token-7731"), "ZeroDivisionError": ZeroDivisionError("token-7731"),
-                 "PyroError": errors.PyroError("token-7731"), "TimeoutError": errors.TimeoutError("token-7731")}
+                 "PyroError": errors.PyroError("token-7731"), "TimeoutError": errors.TimeoutError("token-7731"),
+                 "EmptyPermissionError": PermissionError(), "EmptySecurityError": errors.SecurityError()}
         return table[name]
 
     # ---- clients --------------------------------------------------------------------------------------------
